@@ -539,6 +539,13 @@ func addTree(
 			c.FileInfo.Mode = tree.FileInfo.Mode
 		}
 
+		// only a directory may take the place of an implicit directory, every
+		// other occupied destination is a collision
+		if present, occupied := occupant(all, c.Destination); occupied &&
+			!(present.Type == TypeImplicitDir && c.IsDir()) {
+			return contentCollisionError(c, present)
+		}
+
 		all[c.Destination] = c.WithFileInfoDefaults(umask, mtime)
 
 		return nil
